@@ -89,6 +89,11 @@ func newSmcWorld(e *Env, wd bool) *smcWorld {
 		w.cfgAddrs = append(w.cfgAddrs, ip.String())
 	}
 	sort.Strings(w.cfgAddrs)
+	if len(settings.HostIPAddresses) == 1 && t.Chance(1, 2) {
+		// the deprecated single-address field means the same thing
+		settings.HostIPAddress, settings.HostIPAddresses = settings.HostIPAddresses[0], nil
+		e.Probe("deprecated-host-ip-address-field")
+	}
 	w.mach = sm.New(settings)
 	w.mach.HandleFunc("ALL", func(c diam.Conn, m *diam.Message) {
 		seq := -1
